@@ -11,7 +11,7 @@ RULE = ("stratified cases over all 12 decorators x purge x backend family x keym
         "the resident value, or raises KeyError iff key(args) is not resident; (3) key/lookup never evaluate the function nor change residents, archive or "
         "info; (4) a TWIN run of the same history without the introspection ops is indistinguishable at every step (results, residents, info, "
         "evaluations) - this is how 'eviction order unchanged' is observed; __wrapped__ is the function. non-trivial = a lookup of a resident entry "
-        "followed later by an overflow, or key() under ignore/tol; distinct = (class, backend, ignore, tol, op/outcome sequence)")
+        "[plus: the wrapped callable is a builtin without an introspectable signature (min / max over comparison-logging arguments): key()/lookup() never make it compare; callables without any argument: key() in the empty form; key(args) asked again at the end of the history gives the same key] followed later by an overflow, or key() under ignore/tol; distinct = (class, backend, ignore, tol, op/outcome sequence)")
 ASSUMPTIONS = ['with tol/ignore set, results are compared with the twin run, not with the undecorated function (merging calls is the point of tol/ignore)']
 
 N = {'quick': 550, 'thorough': 3500}
@@ -31,12 +31,105 @@ def _add_introspection(case):
     return dict(case, ops=ops, part='unkeyable')
 
 
+class Lt(object):
+    """argument for the builtins min / max: every comparison (= evaluation of the builtin) is logged"""
+    log = []
+
+    def __init__(self, v):
+        self.v = v
+
+    def __lt__(self, other):
+        Lt.log.append((self.v, other.v))
+        return self.v < other.v
+
+    def __gt__(self, other):
+        Lt.log.append((self.v, other.v))
+        return self.v > other.v
+
+    def __repr__(self):
+        return 'Lt(%d)' % self.v
+
+    def __eq__(self, other):
+        return isinstance(other, Lt) and self.v == other.v
+
+    def __hash__(self):
+        return hash(('Lt', self.v))
+
+
+def builtin_cases(algo):
+    """the wrapped callable is a BUILTIN without an introspectable signature (min, max): klepto caches those too"""
+    from hypothesis import strategies as st
+    op = st.tuples(st.sampled_from(['call', 'call', 'key', 'lookup', 'lookup']), st.integers(0, 3), st.integers(0, 3)).map(list)
+    return st.fixed_dictionaries({
+        'part': st.just('builtin'), 'module': st.sampled_from(['std', 'safe']), 'algo': st.just(algo), 'maxsize': st.sampled_from([1, 2, 3]),
+        'fn': st.sampled_from(['min', 'max']), 'keymap': st.sampled_from([None, {'cls': 'stringmap', 'opt': 'repr', 'flat': True, 'typed': False, 'sentinel': False},
+                                                                              {'cls': 'keymap', 'opt': None, 'flat': True, 'typed': False, 'sentinel': False},
+                                                                              {'cls': 'hashmap', 'opt': 'md5', 'flat': True, 'typed': True, 'sentinel': False}]),
+        'ops': st.lists(op, min_size=2, max_size=14)})
+
+
+def run_builtin(case):
+    import builtins
+    out = []
+    algo = case['algo']
+    classes = ['part:builtin', 'module:' + case['module'], 'eff_algo:' + algo, 'builtin:' + case['fn']]
+    kw = {}
+    km = H.make_keymap(case['keymap'])
+    if km is not None:
+        kw['keymap'] = km
+    if algo not in ('no', 'inf'):
+        kw['maxsize'] = case['maxsize']
+    fn = getattr(builtins, case['fn'])
+    f = H.decorator_class(case['module'], algo)(**kw)(fn)
+    seen = set()
+    flags = set()
+    for i, (kind, x, y) in enumerate(case['ops']):
+        a, b = Lt(x), Lt(y + 10)          # distinct values: min/max compare exactly once per evaluation
+        del Lt.log[:]
+        before = (dict(f.__cache__()), tuple(f.info()))
+        try:
+            if kind == 'call':
+                r = f(a, b)
+                if r != fn(Lt(x), Lt(y + 10)):
+                    out.append(Discrepancy('C18/builtin/%s/wrong-result' % algo, '%s(%r, %r) returned %r' % (case['fn'], a, b, r)))
+                seen.add((x, y))
+                continue
+            r = f.key(a, b) if kind == 'key' else f.lookup(a, b)
+            exc = None
+        except KeyError as e:
+            r, exc = None, e
+        except Exception as e:
+            out.append(Discrepancy('C18/builtin/%s/%s-raised/%s' % (algo, kind, H.exc_sig(e)), 'step %d: %s(%r, %r): %r' % (i, kind, a, b, e)))
+            break
+        after = (dict(f.__cache__()), tuple(f.info()))
+        if Lt.log:
+            out.append(Discrepancy('C18/builtin/%s/%s-evaluated-function' % (algo, kind), 'step %d: %s(%r, %r) on cached builtin %s made it compare %r' % (i, kind, a, b, case['fn'], Lt.log[:3])))
+        elif before != after:
+            out.append(Discrepancy('C18/builtin/%s/%s-changed-state' % (algo, kind), 'step %d: %r -> %r' % (i, before, after)))
+        elif kind == 'key' and exc is not None:
+            out.append(Discrepancy('C18/builtin/%s/key-raised-KeyError' % algo, 'step %d' % i))
+        elif kind == 'lookup':
+            k = f.key(a, b)
+            resident = k in before[0]
+            if resident and (exc is not None or r != before[0][k]):
+                out.append(Discrepancy('C18/builtin/%s/lookup-resident-wrong' % algo, 'step %d: resident %r, lookup gave %r / %r' % (i, before[0][k], r, exc)))
+            elif not resident and exc is None:
+                out.append(Discrepancy('C18/builtin/%s/lookup-nonresident-no-KeyError' % algo, 'step %d: lookup gave %r' % (i, r)))
+            flags.add('builtin_lookup_resident' if resident else 'builtin_lookup_missing')
+        if out:
+            break
+    classes += sorted(flags)
+    nt = ('builtin', case['module'], algo, case['fn'], case['keymap'] and case['keymap']['cls'], tuple(map(tuple, case['ops']))) if 'builtin_lookup_resident' in flags else None
+    return out[:1], nt, classes
+
+
 def strata(tier):
     from props import c16
     # safe decorators with arguments no key can be built for (or whose key is unhashable): key()/lookup() must still never run the function
     unk = [('unkeyable/' + n, s.map(_add_introspection)) for n, s in c16.hostile_strata(tier)[1::3]]
     from hypothesis import strategies as st
-    return unk + [(n, st.tuples(s_, st.integers(0, 2)).map(_with_lookup_scenario)) for n, s_ in _strata(tier)]
+    bi = [('builtin/' + a, builtin_cases(a)) for a in H.ALGOS]
+    return unk + bi + [(n, st.tuples(s_, st.integers(0, 2)).map(_with_lookup_scenario)) for n, s_ in _strata(tier)]
 
 
 def _with_lookup_scenario(pair):
@@ -89,7 +182,9 @@ def _strata(tier):
                 {'req': ['x'], 'opt': [['y', ['i', 1]]], 'varkw': True}, {'req': ['x'], 'varargs': True, 'varkw': True},
                 # float defaults finer than the tolerance: key()/lookup() must treat a defaulted argument exactly as the call does
                 {'req': ['x'], 'opt': [['y', ['f', '0.125']]]}, {'req': ['x'], 'opt': [['y', ['f', '2.675']]], 'kwopt': [['s', ['f', '0.5']]]},
-                {'req': ['x'], 'opt': [['y', ['t', [['f', '0.25'], ['f', '0.75']]]]]}])
+                {'req': ['x'], 'opt': [['y', ['t', [['f', '0.25'], ['f', '0.75']]]]]},
+                # callable with NO argument at all: key() / lookup() in the empty form
+                {'opt': [['x', ['i', 1]], ['y', ['i', 2]]]}, {'varargs': True, 'varkw': True}])
 
 
 INTRO = ('lookup', 'key', 'cache_get', 'wrapped')
@@ -150,6 +245,17 @@ def check(case, tr):
                     return out, flags, None
                 if case.get('ignore') is not None or case.get('tol') is not None:
                     flags['key_under_ignore_tol'] += 1
+                # key(args) is a function of the arguments alone: asked again at the END of the history it must give the same answer
+                try:
+                    again = tr.f.key(*s.args, **s.kwds)
+                    stable = bool(again == s.result) and type(again) is type(s.result)
+                except Exception:
+                    stable = True
+                if not stable:
+                    out.append(Discrepancy('C18/%s/key-depends-on-history' % algo, 'step %d: key(*%r, **%r) gave %r then, %r at the end of the history' % (i, s.args, s.kwds, s.result, again)))
+                    return out, flags, None
+                if not s.args and not s.kwds:
+                    flags['key_of_empty_call'] = flags.get('key_of_empty_call', 0) + 1
             elif s.result is not True:
                 out.append(Discrepancy('C18/%s/%s-identity' % (algo, s.kind), 'step %d' % i))
                 return out, flags, None
@@ -218,6 +324,8 @@ def check_twin(case, tr, keep):
 
 
 def run_case(case):
+    if case.get('part') == 'builtin':
+        return run_builtin(case)
     if case.get('part') == 'unkeyable':
         tr = H.run_history(case)
         discrs, flags = check_unkeyable(case, tr)
@@ -238,6 +346,6 @@ def run_case(case):
     return discrs, nt, sorted(set(classes))
 
 
-REQUIRED_CLASSES = ['unkeyable_lookup', 'lookup_resident', 'lookup_missing', 'lookup_then_overflow', 'key_under_ignore_tol', 'storage_key_checked',
+REQUIRED_CLASSES = ['builtin_lookup_resident', 'builtin_lookup_missing', 'key_of_empty_call', 'unkeyable_lookup', 'lookup_resident', 'lookup_missing', 'lookup_then_overflow', 'key_under_ignore_tol', 'storage_key_checked',
                     'tol:0', 'tol:1', 'tol:-1', 'ignore:set']
 TRIGGERS = {}
